@@ -808,11 +808,75 @@ class Engine:
             else:
                 nexts.append((("unwind", "terminate"), s2))
 
+    def _is_pure_fn(self, key):
+        try:
+            effs = self.summary(key)
+        except Exception:
+            return False
+        return bool(effs) and all(e.exit == "ret" and e.vec == ZERO and not getattr(e, "pcalls", None) for e in effs)
+
+    def _fnptr_targets(self, body, t):
+        """For an indirect call whose callee is a function-pointer parameter of a private function: the set of local function /
+        closure bodies that the call sites pass for that parameter, or None if any of them cannot be told."""
+        from . import cfg as _cfg
+
+        f = self.f
+        fp = (t.get("func") or {}).get("mv") or (t.get("func") or {}).get("cp")
+        if fp is None or fp["p"] or body.get("kind") not in ("Fn", "AssocFn"):
+            return None
+        cache = self.__dict__.setdefault("_fnptr_cache", {})
+        ck = (body["key"], fp["l"])
+        if ck in cache:
+            return cache[ck]
+        cache[ck] = None
+        B = _cfg.Body(body)
+        o = B.origin_local(fp["l"])
+        if o.get("kind") != "arg":
+            return None
+        vis_api = body.get("reachable", body.get("pub", True)) if "reachable" in body or "pub" in body else True
+        from . import balance as _bal
+
+        if _bal.is_api(f, body):
+            return None
+        j = o["arg"]
+        out = set()
+        sites = 0
+        for c in f.body_list:
+            CB = None
+            for bl in c["blocks"]:
+                ct = bl["term"]
+                if ct["k"] != "call":
+                    continue
+                r = ct.get("resolved")
+                k = r["def"] if isinstance(r, dict) else ct.get("callee")
+                if k != body["key"] or len(ct["args"]) < j:
+                    continue
+                sites += 1
+                CB = CB or _cfg.Body(c)
+                ao = CB.origin(ct["args"][j - 1], through_casts=False)
+                tgt = None
+                if ao.get("kind") == "rvalue" and ao["rv"]["k"] == "cast" and "FnPointer" in str(ao["rv"].get("cast")):
+                    opl = ao["rv"]["op"].get("mv") or ao["rv"]["op"].get("cp")
+                    oty = f.ty(opl["ty"]) if opl is not None and "ty" in opl else (f.ty(ao["rv"]["op"]["c"]["ty"]) if "c" in ao["rv"]["op"] and "ty" in ao["rv"]["op"]["c"] else None)
+                    if oty is not None and oty["k"] in ("closure", "fndef") and oty.get("def") in f.bodies:
+                        tgt = oty["def"]
+                if tgt is None:
+                    return None
+                out.add(tgt)
+        cache[ck] = out if sites else None
+        return cache[ck]
+
     def _call(self, body, t, bb, st, fork, emit, nexts):
         f = self.f
         dest = t["dest"]
         dl = dest["l"] if not dest["p"] else None
         if t.get("indirect"):
+            tg = self._fnptr_targets(body, t)
+            if tg is not None and all(self._is_pure_fn(k) for k in tg):
+                # a function pointer parameter of a private function: every call site passes a function of this crate that
+                # touches neither count nor ownership and cannot unwind (`|p| p as *mut _`, a re-typing helper)
+                self._apply([mk()], "STD", {"callee": "(fn pointer: %s)" % ", ".join(sorted(tg))}, t, bb, st, fork, emit, nexts, dl)
+                return
             self._apply([mk(v=vec(user=1)), mk(exit="unw", v=vec(user=1), origin="user")], "USER", {"callee": "(indirect)"}, t, bb, st, fork, emit, nexts, dl)
             return
         r = t.get("resolved")
